@@ -11,7 +11,7 @@ import (
 
 // In the shim flavour the merge engine owns the order of every map iteration inside the
 // library (12 `range` sites, rewritten at build time): each call is run under the sorted order
-// and under every rotation of each iteration in turn. The controller is process-wide, so the
+// and under every rotation of each iteration in turn (maps with more than 8 entries: rotations 1, 2, n/2, n-1). The controller is process-wide, so the
 // engine runs serially in 16 worker processes.
 var mergeOrderChecks = []string{"C02", "C03", "C07"}
 
@@ -37,6 +37,10 @@ func init() {
 				continue
 			}
 			for alt := 1; alt < p.n; alt++ {
+				// maps with more than 8 entries (the scale inputs): rotations 1, 2, n/2 and n-1 only
+				if p.n > 8 && alt != 1 && alt != 2 && alt != p.n/2 && alt != p.n-1 {
+					continue
+				}
 				c2 := &chooser{prefix: append(append([]int(nil), base[:i]...), alt)}
 				ctl.c = c2
 				out = append(out, call())
